@@ -9,8 +9,9 @@ against dense linear algebra restricted to the charge sector (basis states selec
              sector exactly 0, tensor charge == requested charge, DMRG_out.sweeps/method/denergy bookkeeping,
              reported energy == <psi|H|psi>, energy >= lowest eigenvalue in the sector,
              energy does not increase when nothing was truncated (1site, or max_discarded_weight <= 1e-14)
- premise-    converged (dE < 1e-12 twice) at maximal bond dimension with full Schmidt rank  ->  eigen-residual;
- conditioned penalised run (project=[(penalty, phi0)]) with phi0 a converged eigenstate, itself converged at
+ premise-    converged (dE < 1e-12 twice) at maximal bond dimension (a site with both sides complete, or full Schmidt
+ conditioned rank at every cut)  ->  eigen-residual;
+             penalised run (project=[(penalty, phi0)]) with phi0 a converged eigenstate, itself converged at
              maximal bond dimension -> orthogonal to phi0 and at the lowest level of H + penalty |phi0><phi0|.
              Premise not observed -> counted (premise_unmet:*), never judged.
 """
@@ -34,8 +35,10 @@ ASSUMPTIONS = ["numpy.linalg.eigvalsh / dense matrix-vector products on <= 4096-
                "the dense matrix of the MPO returned by generate_mpo defines H (cases with a non-Hermitian or charge-"
                "changing dense image are skipped and counted)",
                "MpsMpoOBC.to_tensor + Tensor.to_numpy(legs=...) are observation functions (cross-validated by C01/C06)",
-               "DMRG_out.energy of a penalised run is compared with <psi|H|psi> of the MPO(s) H (the value the test-suite "
-               "asserts), not with the penalised functional"]
+               "DMRG_out.energy of a penalised run may be <psi|H|psi> (what the test-suite asserts) or the penalised functional "
+               "<H> + sum_i penalty_i |<phi_i|psi>|^2; both readings are accepted",
+               "an eigs call is attributed to the mechanism 'Krylov basis not orthonormal' only when the probe on "
+               "Tensor.expand_krylov_space observed a Gram-matrix defect > 1e-8 in that sweep"]
 
 ETOL = 1e-10       # energy consistency / variational / monotonicity, times max(1, ||H||)
 NTOL = 1e-11       # norm, canonical form
@@ -45,7 +48,7 @@ CONV_DE = 1e-12
 
 def plan(tier):
     if tier == "thorough":
-        return {"cases": 5600, "shards": 16, "budget_s": 800}
+        return {"cases": 4900, "shards": 16, "budget_s": 780}
     return {"cases": 350, "shards": 8, "budget_s": 110}
 
 
@@ -112,13 +115,23 @@ OPTS_EIGS = (None, None,
 
 # ------------------------------------------------------------------ Krylov interposer (API boundary, no source edit)
 
-KRY = {"installed": False, "worst": 0.0, "info": None, "calls": 0}
+KRY = {"installed": False, "worst": 0.0, "info": None, "calls": 0, "call_worst": 0.0, "call_alpha0": None,
+       "bad_norm": 0.0, "bad_rise": 0.0}
 EIGS_KEY = "eigs:krylov-basis-not-orthonormal"
 
 
 def install_krylov_probe():
-    """Wrap Tensor.expand_krylov_space: record the worst |<V_i|V_j> - delta_ij| of the returned Krylov basis."""
+    """Two wrappers at the API boundary (no source edit):
+
+    * Tensor.expand_krylov_space: record the worst |<V_i|V_j> - delta_ij| of the returned Krylov basis;
+    * the ``eigs`` binding used by dmrg_: when the basis of *that call* was not orthonormal (defect > 1e-8), measure what
+      eigs handed back -- the norm of the Ritz vector and its Rayleigh quotient <y|f(y)>/<y|y> (one extra application
+      of f) against the Rayleigh quotient of the start vector.  With an orthonormal basis Ritz theory guarantees a unit
+      vector whose Rayleigh quotient does not exceed that of the start vector, so nothing is measured then.
+
+    The records only select the *mechanism key* of a clause that fails anyway; they never make a clause pass."""
     import yastn
+    import yastn.tn.mps._dmrg as dm
     if KRY["installed"]:
         return
     orig = yastn.Tensor.expand_krylov_space
@@ -132,6 +145,9 @@ def install_krylov_probe():
             for j in range(i, m):
                 g = abs(complex(V2[i].vdot(V2[j])) - (1.0 if i == j else 0.0))
                 worst = max(worst, g)
+        KRY["call_worst"] = max(KRY["call_worst"], worst)
+        if (0, 0) in H2:
+            KRY["call_alpha0"] = float(np.real(complex(H2[(0, 0)])))
         if worst > KRY["worst"]:
             KRY["worst"] = worst
             KRY["info"] = {"gram_defect": worst, "vector_size": int(self.size), "ncv": int(ncv), "basis": m, "happy": bool(happy),
@@ -141,11 +157,28 @@ def install_krylov_probe():
 
     probe.__wrapped__ = orig
     yastn.Tensor.expand_krylov_space = probe
+
+    orig_eigs = dm.eigs
+
+    def eigs_probe(f, v0, *args, **kwargs):
+        KRY["call_worst"], KRY["call_alpha0"] = 0.0, None
+        val, Y = orig_eigs(f, v0, *args, **kwargs)
+        if KRY["call_worst"] > 1e-8 and KRY["call_alpha0"] is not None and len(Y) > 0:
+            y = Y[0]
+            ny = float(y.norm())
+            if ny > 0:
+                rq = float(np.real(complex(y.vdot(f(y))))) / (ny * ny)
+                KRY["bad_norm"] = max(KRY["bad_norm"], abs(ny - 1.0))
+                KRY["bad_rise"] = max(KRY["bad_rise"], rq - KRY["call_alpha0"])
+        return val, Y
+
+    eigs_probe.__wrapped__ = orig_eigs
+    dm.eigs = eigs_probe
     KRY["installed"] = True
 
 
 def krylov_reset():
-    KRY["worst"], KRY["info"] = 0.0, None
+    KRY["worst"], KRY["info"], KRY["bad_norm"], KRY["bad_rise"] = 0.0, None, 0.0, 0.0
 
 
 # ------------------------------------------------------------------ the oracle
@@ -178,7 +211,7 @@ class Dense(T.Sector):
         return self.energy(vs) + sum(float(np.real(p)) * abs(np.vdot(v, vs)) ** 2 for p, v in self.pen)
 
 
-def observe(ctx, psi, dn, tag, witness, out=None, gram=0.0):
+def observe(ctx, psi, dn, tag, witness, out=None, gram=0.0, eigs_nonunit=0.0):
     """Clauses that hold for every state dmrg_ hands back.
 
     out / gram (DMRG_out of the sweep, worst Gram defect of a Krylov basis seen by the probe) only select the
@@ -206,10 +239,10 @@ def observe(ctx, psi, dn, tag, witness, out=None, gram=0.0):
             ctx.violation("not-normalised:2site-truncation",
                           f"{tag}: ||psi|| = {nv!r} after a 2site sweep with max_discarded_weight = {dw!r}: post_2site_ keeps the "
                           f"truncated Schmidt values un-normalised and _dmrg_sweep_2site_ never renormalises", witness)
-        elif two and gram > 1e-8:
+        elif two and eigs_nonunit > NTOL / 2:
             ctx.violation(EIGS_KEY,
-                          f"{tag}: ||psi|| = {nv!r} after a 2site sweep in which eigs combined a Krylov basis that was not orthonormal "
-                          f"(max |<V_i|V_j> - delta_ij| = {gram:.2e}: Lanczos without re-orthogonalisation kept expanding after the Krylov "
+                          f"{tag}: ||psi|| = {nv!r} after a 2site sweep in which eigs returned a Ritz vector of norm 1 {eigs_nonunit:+.2e} "
+                          f"because it combined a Krylov basis that was not orthonormal (max |<V_i|V_j> - delta_ij| = {gram:.2e}: Lanczos without re-orthogonalisation kept expanding after the Krylov "
                           f"space was exhausted / the start vector had converged, the residual staying above the fixed 1e-13 happy-breakdown "
                           f"threshold); the Ritz vector is then not a unit vector and _dmrg_sweep_2site_ never renormalises", witness)
         else:
@@ -230,7 +263,7 @@ def observe(ctx, psi, dn, tag, witness, out=None, gram=0.0):
     return v[dn.idx] / nv, nv
 
 
-def judge_sweep(ctx, out, vs, nv, dn, st, tag, witness, gram=0.0):
+def judge_sweep(ctx, out, vs, nv, dn, st, tag, witness, gram=0.0, eigs_rise=0.0):
     """Energy clauses after one sweep.  st: running state of the monitored run (dict).
 
     E  = Rayleigh quotient of the returned state (variational bound, monotonicity);
@@ -242,25 +275,24 @@ def judge_sweep(ctx, out, vs, nv, dn, st, tag, witness, gram=0.0):
     penal = bool(dn.pen)
     dw = out.max_discarded_weight
     # --- reported energy
-    if True:
-        ctx.count("energy_checks")
-        if penal:
-            ctx.count("energy_checks_penalised")
-            err = min(abs(out.energy - Eu), abs(out.energy - Epu))      # either reading of "energy" of a penalised run
-            if not within(ctx, "energy:penalised", err, tol):
-                bare = nv * sum(float(np.real(np.vdot(vs, v))) for _, v in dn.pen)
-                ovl = sum(abs(np.vdot(v, vs)) for _, v in dn.pen)
-                if abs(out.energy - (Eu + bare)) <= tol:
-                    ctx.violation("energy-mismatch:project-overlap-term",
-                                  f"{tag}: DMRG_out.energy = {out.energy!r} but <psi|H|psi> = {Eu!r} (penalised functional {Epu!r}); the "
-                                  f"difference {out.energy - Eu:.3e} equals sum_i Re<psi|phi_i> = {bare:.3e}: Env_project inherits "
-                                  f"Env2.measure, so env.measure() adds the bare overlaps", dict(witness, overlap=ovl))
-                else:
-                    ctx.violation("energy-mismatch:penalised", f"{tag}: DMRG_out.energy = {out.energy!r}, <psi|H|psi> = {Eu!r}, "
-                                  f"penalised functional = {Epu!r}", witness)
-        elif not ctx.margin("energy", abs(out.energy - Eu), tol):
-            ctx.violation("energy-mismatch", f"{tag}: DMRG_out.energy = {out.energy!r} but dense <psi|H|psi> = {Eu!r} "
-                          f"(diff {abs(out.energy - Eu):.3e}, allowed {tol:.1e})", witness)
+    ctx.count("energy_checks")
+    if penal:
+        ctx.count("energy_checks_penalised")
+        err = min(abs(out.energy - Eu), abs(out.energy - Epu))      # either reading of "energy" of a penalised run
+        if not within(ctx, "energy:penalised", err, tol):
+            bare = nv * sum(float(np.real(np.vdot(vs, v))) for _, v in dn.pen)
+            ovl = sum(abs(np.vdot(v, vs)) for _, v in dn.pen)
+            if abs(out.energy - (Eu + bare)) <= tol:
+                ctx.violation("energy-mismatch:project-overlap-term",
+                              f"{tag}: DMRG_out.energy = {out.energy!r} but <psi|H|psi> = {Eu!r} (penalised functional {Epu!r}); the "
+                              f"difference {out.energy - Eu:.3e} equals sum_i Re<psi|phi_i> = {bare:.3e}: Env_project inherits "
+                              f"Env2.measure, so env.measure() adds the bare overlaps", dict(witness, overlap=ovl))
+            else:
+                ctx.violation("energy-mismatch:penalised", f"{tag}: DMRG_out.energy = {out.energy!r}, <psi|H|psi> = {Eu!r}, "
+                              f"penalised functional = {Epu!r}", witness)
+    elif not ctx.margin("energy", abs(out.energy - Eu), tol):
+        ctx.violation("energy-mismatch", f"{tag}: DMRG_out.energy = {out.energy!r} but dense <psi|H|psi> = {Eu!r} "
+                      f"(diff {abs(out.energy - Eu):.3e}, allowed {tol:.1e})", witness)
     # --- variational bound (Rayleigh quotient of whatever was returned)
     ctx.count("variational_checks")
     lo = dn.ev[0]
@@ -273,10 +305,11 @@ def judge_sweep(ctx, out, vs, nv, dn, st, tag, witness, gram=0.0):
     if nothing_truncated:
         ctx.count("monotone_judged")
         if not within(ctx, "monotone", max(0.0, Ep - st["Ep_prev"]), tol):
-            ctx.violation(EIGS_KEY if gram > 1e-8 else "energy-increased:" + ("penalised" if penal else str(out.method)),
+            ctx.violation(EIGS_KEY if eigs_rise > tol else "energy-increased:" + ("penalised" if penal else str(out.method)),
                           f"{tag}: energy rose from {st['Ep_prev']!r} to {Ep!r} (+{Ep - st['Ep_prev']:.3e}) although nothing was truncated "
-                          f"(max_discarded_weight={dw})" + (f"; eigs combined a Krylov basis that was not orthonormal in this sweep (max "
-                          f"|<V_i|V_j> - delta_ij| = {gram:.2e}), so its Ritz vector need not lower the energy" if gram > 1e-8 else ""), witness)
+                          f"(max_discarded_weight={dw})" + (f"; in this sweep eigs combined a Krylov basis that was not orthonormal (max "
+                          f"|<V_i|V_j> - delta_ij| = {gram:.2e}) and returned a vector whose Rayleigh quotient is {eigs_rise:.3e} above that "
+                          f"of its start vector" if eigs_rise > tol else ""), witness)
     else:
         ctx.count("monotone_not_judged_truncation")
         ctx.count("truncation_binding_sweeps")
@@ -355,12 +388,15 @@ def monitored_run(ctx, psi, H, dn, counts, cfgrun, tag, witness, stop_when_conve
         if gram > 1e-8:
             ctx.count("sweeps_with_nonorthonormal_krylov_basis")
             w["krylov"] = KRY["info"]
-        vs_new, nv = observe(ctx, psi, dn, f"{tag} sweep {k}", w, out=out, gram=gram)
+        bad_norm, bad_rise = KRY["bad_norm"], KRY["bad_rise"]
+        if gram > 1e-8:
+            w["krylov"] = dict(KRY["info"], ritz_vector_norm_defect=bad_norm, rayleigh_quotient_rise=bad_rise)
+        vs_new, nv = observe(ctx, psi, dn, f"{tag} sweep {k}", w, out=out, gram=gram, eigs_nonunit=bad_norm)
         krylov_reset()
         if vs_new is None:
             break
         vs = vs_new
-        judge_sweep(ctx, out, vs, nv, dn, st, f"{tag} sweep {k}", w, gram=gram)
+        judge_sweep(ctx, out, vs, nv, dn, st, f"{tag} sweep {k}", w, gram=gram, eigs_rise=bad_rise)
         last = out
         if k < len(plan_methods) and plan_methods[k] != plan_methods[k - 1]:
             method.update_(plan_methods[k])
@@ -449,14 +485,19 @@ def run_case(ctx, idx):
             "opts_svd": {"D_total": 100000} if m2 == "2site" else None}
     w2 = dict(witness, stage="converge", run2={k: repr(v) for k, v in cfg2.items()})
     r2 = monitored_run(ctx, psi_c, H, dn, counts, cfg2, "converge", w2, stop_when_converged=True)
-    met = r2["converged"] and T.is_full_manifold(psi_c, counts)
-    if met:
-        vfull = dn.embed(r2["vs"])
-        met = schmidt_full(vfull, sp, N, counts)
-        if not met:
-            ctx.count("premise_unmet:schmidt-rank-deficient")
+    # premise: converged, and either the bond structure contains a site whose two sides are both complete (its local
+    # eigenproblem then *is* the sector eigenproblem) or the manifold is the whole sector at a point of full Schmidt rank
+    # (the tangent space is then the whole sector)
+    met = r2["converged"]
+    if not met:
+        ctx.count("premise_unmet:not-converged")
+    elif T.exactness_premise(psi_c, counts):
+        ctx.count("premise_met:two-sided-complete-site")
+    elif T.is_full_manifold(psi_c, counts) and schmidt_full(dn.embed(r2["vs"]), sp, N, counts):
+        ctx.count("premise_met:full-schmidt-rank")
     else:
-        ctx.count("premise_unmet:not-converged-or-not-full")
+        met = False
+        ctx.count("premise_unmet:no-complete-site-and-rank-deficient")
     if not met:
         return
     ctx.count("converged_premise_met")
@@ -484,8 +525,9 @@ def run_case(ctx, idx):
             "opts_svd": {"D_total": 100000} if m3 == "2site" else None, "project": project}
     w3 = dict(witness, stage="penalised", penalty=penalty, default_penalty=default_pen, run3={k: repr(v) for k, v in cfg3.items() if k != "project"})
     r3 = monitored_run(ctx, psi_p, H, dn, counts, cfg3, "penalised", w3, stop_when_converged=True)
-    if not (r3["converged"] and T.is_full_manifold(psi_p, counts)):
-        ctx.count("premise_unmet:penalised-not-converged")
+    if not (r3["converged"] and (T.exactness_premise(psi_p, counts) or
+                                 (T.is_full_manifold(psi_p, counts) and schmidt_full(dn.embed(r3["vs"]), sp, N, counts)))):
+        ctx.count("premise_unmet:penalised-not-converged-or-no-complete-site")
         return
     ctx.count("penalised_premise_met")
     vp = r3["vs"]
@@ -494,10 +536,13 @@ def run_case(ctx, idx):
         ctx.violation("project:not-orthogonal", f"penalised run (penalty {penalty}) converged with |<phi0|psi>| = {ov:.3e}", w3)
     Ep = dn.energy(vp)
     target = float(dn.evp[0])
-    if not ctx.margin("project-next-level", abs(Ep - target), 1e-7 * dn.scale):
+    if not within(ctx, "project-next-level", abs(Ep - target), 1e-7 * dn.scale):
         rp = float(np.linalg.norm(dn.Hp @ vp - dn.pen_energy(vp) * vp))
         if rp <= 1e-6 * dn.scale and Ep > target:
-            ctx.count("penalised_stuck_in_higher_eigenstate")      # a stationary point, not the promised target: not judged
+            # converged to a higher eigenstate of H + penalty |phi0><phi0| (a stationary point of the sweep, e.g. protected by
+            # a symmetry of the random Hamiltonian that the tensors do not encode): convergence to the *lowest* level is an
+            # asymptotic promise, so this is counted and not judged
+            ctx.count("penalised_stuck_in_higher_eigenstate")
         else:
             ctx.violation("project:wrong-level", f"penalised run converged at <H> = {Ep!r}; lowest level of H + penalty|phi0><phi0| is "
                           f"{target!r} (levels {dn.ev[:3].tolist()})", w3)
